@@ -546,6 +546,12 @@ pub proof fn lemma_blob(l: Layout)
              "r.is_some() && field_ty.spec_canonical(self_.ctx).spec_array().is_none() ==> r.unwrap().size == field_ty.spec_layout(self_.ctx).unwrap().size "
              "&& r.unwrap().align == ({ let a = field_ty.spec_layout(self_.ctx).unwrap().align; let c = field_ty.spec_canonical(self_.ctx).spec_layout(self_.ctx); "
              "if !field_ty.spec_is_canonical(self_.ctx) && c.is_some() && c.unwrap().align != 0 && c.unwrap().align < a { c.unwrap().align } else { a } })",
+             # an array of over-aligned elements (the 'ultra hack'): whenever the IR agrees with C about the array (sizeof is a multiple of
+             # alignof for the element, the array is len elements), the tracker is still told the C size of the member - its running
+             # offset, and with it the placement of every LATER member and bit-field unit (C03), depends on it - at alignment 8
+             "r.is_some() && field_ty.spec_canonical(self_.ctx).spec_array().is_some() ==> ({ let a = field_ty.spec_canonical(self_.ctx).spec_array().unwrap(); let l = self_.ctx.spec_type(a.0).spec_layout(self_.ctx); "
+             "l.is_some() && l.unwrap().align > 8 && l.unwrap().size as int % l.unwrap().align as int == 0 && field_ty.spec_layout(self_.ctx).unwrap().size == l.unwrap().size * a.1 "
+             "==> r.unwrap().size == field_ty.spec_layout(self_.ctx).unwrap().size && r.unwrap().align == 8 })",
          ]},
         {"kind": "fn", "file": SL, "name": "is_rust_union", **TR, "ret": "r", "ensures": ["r == self.is_rust_union"]},
         # ---- the tail of <CompInfo as CodeGenerator>::codegen that completes size and alignment (statement, R18)
